@@ -137,11 +137,11 @@ func genCut(c *hx.Ctx) []*scriptScn {
 		bases = append(bases, base{ws, ids})
 	}
 	if !c.Quick() {
-		// one stream of about 2.5 KiB, cut at every byte
+		// one stream of 1 to 2 KiB, cut at every byte
 		var ws []wr
 		ids := []uint32{1, 2, 0xffffffff}
 		for j := 0; j < 12; j++ {
-			ws = append(ws, wr{ids[r.Intn(3)], []int{0, 7, 100, 300, 511, 600}[r.Intn(6)]})
+			ws = append(ws, wr{ids[r.Intn(3)], []int{0, 7, 64, 100, 200, 300}[r.Intn(6)]})
 		}
 		bases = append(bases, base{ws, ids})
 	}
@@ -558,6 +558,10 @@ func genListener(c *hx.Ctx) []*scriptScn {
 
 // ---------------------------------------------------------------- the driver
 
+var shardBytes, shardCases = map[*hx.Shard]int{}, map[*hx.Shard]int{}
+
+const scriptShardMax = 150
+
 const faultImports = "From NRI Require Import Model.Mux Run.Common Run.RunMux."
 
 func driveFault(c *hx.Ctx) error {
@@ -591,7 +595,7 @@ func driveFault(c *hx.Ctx) error {
 			continue
 		}
 		if shards[s.Stream] == nil {
-			shards[s.Stream] = c.NewShard(s.Stream, faultImports, "script_case", "corr_script", "holds_script", 150)
+			shards[s.Stream] = c.NewShard(s.Stream, faultImports, "script_case", "corr_script", "holds_script", scriptShardMax)
 		}
 		emitScript(c, i, s, res[i], shards[s.Stream])
 	}
@@ -732,6 +736,15 @@ func emitScript(c *hx.Ctx, idx int, s *scriptScn, r scnResult, sh *hx.Shard) {
 		sideTerm(0), sideTerm(1), coqfmt.Str(o.Sent[0]), coqfmt.Str(o.Sent[1]), sentTerm(0), sentTerm(1), recvTerm(0), recvTerm(1),
 		coqfmt.List(m.side[0].after), coqfmt.List(m.side[1].after), coqfmt.Bool(m.orderly))
 	sh.Add(term, raw)
+	// coqc needs a few KiB of memory per byte of case file and ./check evaluates 16 files side by side
+	shardBytes[sh] += len(term)
+	shardCases[sh]++
+	if shardCases[sh] >= scriptShardMax {
+		shardBytes[sh], shardCases[sh] = 0, 0 // Add has written the file
+	} else if shardBytes[sh] > 400000 {
+		sh.Flush()
+		shardBytes[sh], shardCases[sh] = 0, 0
+	}
 	if idx%211 == 0 {
 		c.Sample(map[string]interface{}{"stream": s.Stream, "note": s.Note, "acts": s.Acts, "results": o.Res}, 8)
 	}
